@@ -13,6 +13,12 @@ Definition finished (ts : list tstate) : Prop := forall t, In t ts -> exists r, 
 Definition at_step (cf : cfg) (reqs : list req) (s : list nat) (d : db) (k : nat) : list tstate * db :=
   exec cf reqs (firstn k s) d.
 
+(* the transaction in which a request commits its changes *)
+Definition committing (t : tstate) : Prop :=
+  match t with TProvWrite _ _ | TMain _ _ _ => True | _ => False end.
+Definition commits_at (cf : cfg) (reqs : list req) (s : list nat) (d : db) (i k : nat) : Prop :=
+  nth_error s k = Some i /\ exists t, nth_error (fst (at_step cf reqs s d k)) i = Some t /\ committing t.
+
 (* requests that carry a provider generation: PUT inventories, PUT inventory, PUT traits,
    PUT aggregates from 1.19, POST /reshaper *)
 Definition carries_rp_gen (r : req) (u g : Z) : Prop :=
